@@ -166,7 +166,7 @@ PROPS['C11'] = {
             ('tdigest.rs', 'c16_td_merge_1_1', 'bounded(1 centroid + 1 backlog): merge empties the backlog and never creates centroids'),
         ],
     },
-    'explanation': 'allocation-size contracts proved by Verus for all sizes (all_zero_intvector block count = ceil(bits*len/W); Bloom m bits; Cuckoo/HLL/Reservoir table sizes; growth bounded by representation invariants preserved by every verified operation; clear() keeps sizes); CMS / Quotient / TDigest-backlog sizes by bounded Kani harnesses.',
+    'explanation': 'allocation-size contracts proved by Verus for all sizes (all_zero_intvector block count = ceil(bits*len/W); Bloom m bits; Cuckoo/HLL/Reservoir table sizes; Quotient: 2^bq slots in three bit arrays + slots x remainder bits rounded up to one block, and no operation ever changes a length (same_shape); CMS: exactly w*d counters, add_n/merge/clear keep the length; growth bounded by representation invariants preserved by every verified operation; clear() keeps sizes). Bounded Kani harnesses cross-check the IntVector/table sizes on the real dependency and give the TDigest backlog bound (backlog <= max_backlog_size after every insert).',
     'trusted_base': COMMON_TRUST + [INTVEC_TRUST, FBS_TRUST, 'Vec capacity slack and allocator behaviour (std)'],
     'assumptions': [],
     'not_decided': ['TDigest centroid count O(delta) (same obstacle as C04)', 'LossyCounter: the closed-form O((1/eps) log(eps n)) bound (the pruning invariant that implies it -- every tracked entry has f + delta > completed windows -- IS proved)'],
@@ -300,7 +300,7 @@ MANIFEST_TEXT = {
     'C10': _mt('Unbounded Verus proof on the real CMSHeap::add: never panics, map and tree agree, exactly min(k, distinct seen) elements, all added, and the ranking invariant from which C10\'s ranking clause follows (lemma_ranking).',
                'Trusted: vstd HashMap specs, contract-only stubs for BTreeSet<TreeEntry> (ordered by (n, obj)) and for the sketch (estimate in [true, true+E]). No counterexample engine (Kani cannot run HashMap/BTreeSet).',
                'Verus contracts on the extracted real add()'),
-    'C11': _mt('Allocation-size contracts: Verus (unbounded) for all_zero_intvector, Bloom, Cuckoo, HLL, Reservoir; bounded Kani for CMS, Quotient, TDigest backlog.',
+    'C11': _mt('Allocation-size contracts: Verus (unbounded) for all_zero_intvector, Bloom, Cuckoo, Quotient, CMS, HLL, Reservoir, CMSHeap (<= k) and the LossyCounter pruning clause; bounded Kani for the TDigest backlog and as cross-check of the stubs.',
                'Trusted: IntVector/FixedBitSet/Vec allocation behaviour as stated in the stubs; TDigest centroid count, LossyCounter/CMSHeap growth not decided.',
                'Verus contracts on extracted real functions + Kani contract harnesses'),
     'C12': _mt('Unbounded Verus proofs for both filters: every failing insert/union leaves (cuckoo: restores) every array and the counter; Kani harnesses as counterexample engine.',
